@@ -60,6 +60,14 @@ def check_case(ctx, case):
         back = np.asarray(r.deltas[name]) + r.r_values[name]
         if len(back) != n or np.max(np.abs(back - x)) > 1e-11 * scale or not close(float(r.value), float(mean), rtol=1e-13, scale=scale):
             probs.append(('violation', 'jack-import', 'samples not restored (max dev %r)' % (float(np.max(np.abs(back - x))) if len(back) == n else 'length')))
+        # the library's own users of the transform (jackknife-based matrix products) return observables on the
+        # configuration list of their operands: export, operate on the samples, import
+        if n >= 8 and n % 3 == 0:
+            M_ = np.array([[o, 2.0 * o], [o * o, o + 1.0]], dtype=object)
+            for nm_, res_ in (('einsum', pe.linalg.einsum('ij,jk->ik', M_, np.eye(2))), ('jack_matmul', pe.linalg.jack_matmul(M_, np.eye(2)))):
+                e00 = res_[0, 0]
+                if list(e00.idl.get(name, [])) != list(il) or e00.names != [name]:
+                    probs.append(('violation', 'jack-import-idl', '%s: result on %r..., operand on %r...' % (nm_, list(e00.idl.get(name, []))[:6], list(il)[:6])))
         if ctx.lean is not None and n <= 80:
             rr = ctx.lean.call({'op': 'resample', 'what': 'jack', 'value': q2j(Fraction(float(o.value))), 'x': [q2j(Fraction(float(d + o.r_values[name]))) for d in o.deltas[name]]})
             if '_err' in rr:
